@@ -801,7 +801,7 @@ class C03(SpecProp):
     quick_cap = 9000
     why = 'result contract violated'
     rule = ('C01, C02 and recovery streams; inputs enumerated exhaustively up to the bound, so every one-token extension of an '
-            'accepted input below the bound is itself a case; observation = (has_output, has_errors, into_result is Ok); shared memoized parsers that succeed with a non-fatal error, revisited in check mode / under ignored / to_slice; IoInput readers positioned after a header')
+            'accepted input below the bound is itself a case; observation = (has_output, has_errors, into_result is Ok); shared memoized parsers that succeed with a non-fatal error, revisited in check mode / under ignored / to_slice; IoInput readers positioned after a header; every fourth Pratt table of C09 (acceptance and tree against the reading)')
     level_text = ('theorems on parse/check of the model: error-free output iff the grammar followed by end-of-input matches in the '
                   'PEG reading (every token consumed), no-output implies an error, into_result consistency; the real ParseResult '
                   'accessors compared on every case; the same contract for grammars with extensions (parseTopE)')
@@ -950,7 +950,7 @@ class C15(SpecProp):
     streams = ['ctx']
     why = 'context delivered / configured parser differs from the lexical reading'
     rule = ('length-prefixed, delimiter-echo and nested-provider families plus C01 grammars with context readers and providers '
-            '(with_ctx, ignore_with_ctx, then_with_ctx, map_ctx) inserted at node positions; outputs embed the observed context')
+            '(with_ctx, ignore_with_ctx, then_with_ctx, map_ctx) inserted at node positions; outputs embed the observed context; the context across a nested parse (provider outside a.nested_in(b), readers inside)')
     level_text = ('refinement theorem: the machine (which swaps a context reference) delivers the lexically nearest provider of the '
                   'PEG reading; configure/try_configure equal the statically configured parser; outputs of the real crate compared; the context of the caller is handed back also by Pratt parsers and nested parses (runE)')
 
@@ -1467,7 +1467,7 @@ class C20(Prop):
     rule = ('union of all streams (C01, repetition incl. nullable items, emitters, recovery, decorations, context, state, four error '
             'kinds) on exhaustive small inputs, plus malformed inputs: random strings over the full Unicode range incl. combining marks, '
             'surrogate-adjacent and 4-byte characters, long inputs; every case under catch_unwind and a wall-clock watchdog; '
-            'observation = returned / panic(site) / hang; every text parser over &str and &Graphemes inputs of context-dependent clusters (no panic); define-twice probe')
+            'observation = returned / panic(site) / hang; every text parser over &str and &Graphemes inputs of context-dependent clusters (no panic); define-twice probe; repetitions configured with absurd counts (2^64-1 … 10^12); the define-twice refusal names the define site')
     level_text = ('theorems: a failing run always leaves a pending error (the "can\'t fail" unwraps never fire), well-formed grammars never '
                   'panic, fuel bound for non-recursive well-formed grammars (Lean); every case of every stream plus malformed inputs run '
                   'against the real crate under catch_unwind + watchdog and compared with the model')
@@ -3076,7 +3076,7 @@ class C07(Prop):
     rule = ('C01-class grammars (<= 3 nodes) and repetition/separator consumers incl. foldl_with/foldr_with, with EVERY node wrapped in a '
             'tagged map_with span capture, plus single to_span / to_slice insertions; input kinds &str (multi-byte), &[char], Stream, '
             'Input::map over a slice and over a Stream with token gaps 0, 1, 3; all inputs up to the bound; observation = the output '
-            '(all spans, slices as pointer offsets into the caller\'s buffer); non-trivial = backtracking grammar and non-empty input')
+            '(all spans, slices as pointer offsets into the caller\'s buffer); non-trivial = backtracking grammar and non-empty input; every third Pratt table of C09 (the spans handed to the fold callbacks)')
     level_text = ('theorems: every capture site gets mkSpan of exactly the positions its sub-parser matched between (machine = reading, '
                   'all grammars), and mkSpan is non-inverted, inside the input, on character boundaries, nested/ordered, empty for empty '
                   'matches and between the neighbouring tokens for gapped inputs (Lean); outputs of the real crate compared with reading '
@@ -3522,7 +3522,7 @@ class C16(Prop):
             'suffix; all outer inputs up to length 3 over {a, b, g0, g1} plus literals over the deeper groups; parse and check; '
             'three implementation-only families: nest(a, select g) on [g] = a on children(g) (output and every error), remainder after a '
             'nested parse = the outer tokens after the group, choice over a failed nested parse = its other alternative; '
-            'non-trivial = the input contains a group token')
+            'non-trivial = the input contains a group token; context providers outside and readers inside the nested parse')
     level_text = ('refinement theorems: the two-level language, nested_in at ANY position of any grammar (hole form), and nested inputs '
                   'together with Pratt tables (extension machine) (machine of nested_in/with_input -> recursive reading, every grammar, token '
                   'tree, mode, fuel), completeness / leftover-fails / backtracking / failure-merge theorems (Lean); outputs, error lists and '
